@@ -19,26 +19,45 @@ fn nm(b: bool) -> &'static str {
     }
 }
 
-/// A selection set of two items: item 0 is a field (name chosen by the solver), item 1 is a
-/// field or an inline fragment holding one field (kind and names chosen by the solver).
-/// `filter(name)` returns exactly the fields of that name the spec's CollectFields visits one
-/// level down, in document order (identified by their aliases).
-pub fn lookahead_two<S: Src>(s: &mut S) {
+/// One selection: a field, or an inline fragment holding that field (solver-chosen); field name
+/// and looked-up name solver-chosen from {a, b}. `filter(name)` returns exactly the field iff
+/// the names agree (CollectFields looks through inline fragments).
+pub fn lookahead_one<S: Src>(s: &mut S) {
+    let n0 = s.bool();
+    let wrap = s.bool();
+    let want_name = s.bool();
+    let f0 = field(nm(n0), Some("x0"), Vec::new(), Vec::new());
+    let items = vec![if wrap { inline(vec![f0]) } else { f0 }];
+    let set = ManuallyDrop::new(SelectionSet { items });
+    let frags: ManuallyDrop<HashMap<Name, Positioned<FragmentDefinition>>> = ManuallyDrop::new(HashMap::default());
+    let mut out: Vec<&Field> = Vec::new();
+    filter(&mut out, &frags, &set, nm(want_name));
+    let want = (n0 == want_name) as usize;
+    cover!(want == 1 && wrap, "match through an inline fragment");
+    cover!(want == 0, "no match");
+    assert!(out.len() == want, "number of fields reported");
+    if want == 1 {
+        let a = out[0].alias.as_ref().map(|a| a.node.as_str().len()).unwrap_or(0);
+        assert!(a == 2, "the matching field is reported");
+    }
+    std::mem::forget(out);
+}
+
+/// Two sibling fields (names solver-chosen): both, one or none are reported, in document order.
+pub fn lookahead_siblings<S: Src>(s: &mut S) {
     let n0 = s.bool();
     let n1 = s.bool();
-    let wrap1 = s.bool();
     let want_name = s.bool();
     let f0 = field(nm(n0), Some("x0"), Vec::new(), Vec::new());
     let f1 = field(nm(n1), Some("x1"), Vec::new(), Vec::new());
-    let items = vec![f0, if wrap1 { inline(vec![f1]) } else { f1 }];
-    let set = ManuallyDrop::new(SelectionSet { items });
+    let set = ManuallyDrop::new(SelectionSet { items: vec![f0, f1] });
     let frags: ManuallyDrop<HashMap<Name, Positioned<FragmentDefinition>>> = ManuallyDrop::new(HashMap::default());
     let mut out: Vec<&Field> = Vec::new();
     filter(&mut out, &frags, &set, nm(want_name));
     let e0 = n0 == want_name;
     let e1 = n1 == want_name;
     let want = e0 as usize + e1 as usize;
-    cover!(want == 2 && wrap1, "both fields match, one through an inline fragment");
+    cover!(want == 2, "both fields match");
     cover!(want == 0, "no match");
     assert!(out.len() == want, "number of fields reported");
     let alias = |f: &Field| f.alias.as_ref().map(|a| a.node.as_str().as_bytes()[1]).unwrap_or(0);
@@ -50,34 +69,32 @@ pub fn lookahead_two<S: Src>(s: &mut S) {
     std::mem::forget(out);
 }
 
-/// A field reached through a named fragment spread is reported (one fragment definition).
+/// A spread of the (only) fragment F, or of an unknown fragment, written directly or inside
+/// an inline fragment (solver-chosen): the fragment's field is reported iff the fragment is
+/// known and the names agree (CollectFields follows spreads at any nesting of inline fragments).
 pub fn lookahead_spread<S: Src>(s: &mut S) {
-    let n0 = s.bool();
     let n1 = s.bool();
     let known = s.bool();
+    let wrap = s.bool();
     let want_name = s.bool();
-    let f0 = field(nm(n0), Some("x0"), Vec::new(), Vec::new());
     let f1 = field(nm(n1), Some("x1"), Vec::new(), Vec::new());
-    let set = ManuallyDrop::new(SelectionSet { items: vec![spread(if known { "F" } else { "G" }), f0] });
+    let sp = spread(if known { "F" } else { "G" });
+    let set = ManuallyDrop::new(SelectionSet { items: vec![if wrap { inline(vec![sp]) } else { sp }] });
     let mut m: HashMap<Name, Positioned<FragmentDefinition>> = HashMap::default();
     m.insert(Name::new("F"), fragment_def(vec![f1]));
     let frags = ManuallyDrop::new(m);
     let mut out: Vec<&Field> = Vec::new();
     filter(&mut out, &frags, &set, nm(want_name));
-    let e0 = n0 == want_name;
-    let e1 = known && n1 == want_name;
-    let want = e0 as usize + e1 as usize;
-    cover!(want == 2, "field of the fragment and direct field");
+    let want = (known && n1 == want_name) as usize;
+    cover!(want == 1 && wrap, "field of the fragment, spread inside an inline fragment");
+    cover!(want == 1 && !wrap, "field of the fragment, direct spread");
     cover!(!known, "spread of an unknown fragment");
     assert!(out.len() == want, "number of fields reported");
-    let alias = |f: &Field| f.alias.as_ref().map(|a| a.node.as_str().as_bytes()[1]).unwrap_or(0);
-    if want == 2 {
-        assert!(alias(out[0]) == b'1' && alias(out[1]) == b'0', "document order (spread first)");
-    }
     std::mem::forget(out);
 }
 
 harnesses! {
-    #[kani::unwind(5)] #[kani::stub(std::hash::RandomState::new, crate::stubs::rs_new)] c22_lookahead_two => lookahead_two;
+    #[kani::unwind(5)] #[kani::stub(std::hash::RandomState::new, crate::stubs::rs_new)] c22_lookahead_one => lookahead_one;
+    #[kani::unwind(5)] #[kani::stub(std::hash::RandomState::new, crate::stubs::rs_new)] c22_lookahead_siblings => lookahead_siblings;
     #[kani::unwind(5)] #[kani::stub(std::hash::RandomState::new, crate::stubs::rs_new)] c22_lookahead_spread => lookahead_spread;
 }
